@@ -2,6 +2,7 @@ import SqfModel.Lemmas.ParseRender
 import SqfModel.Compile
 import SqfModel.Generated.Registry
 import SqfModel.GrammarTie
+import SqfModel.Lemmas.LexRound
 /-!
 # C01 — expressions group by precedence, left-assoc, unary tightest, operands in order
 
@@ -211,6 +212,53 @@ example : sample.WP := by
     leafOfTok, unOfTok, binOfTok]
 
 example : parseToks sample.toks = some sample.erase := by rfl
+
+/-! ## 1b. The same at text level: tokenizer, `yylex` classification and parser read the canonical text back
+
+`renderPToks ts` spells every token and puts one blank behind it.  For every program as written whose tokens are
+`lexable` under the registry — punctuation and keywords; names (identifier-like, or one of the eighteen symbolic
+operators) that the registry classifies as the token says; numbers with an optional fraction; hexadecimal numbers;
+strings in either quote character with doubled quotes — the character-level tokenizer of `Lex.lean` and the
+classification of `yylex` return exactly the token sequence, and therefore the parser returns the documented reading.
+Other spellings (more white space, comments, exponents, letter case of keywords) are covered by the correspondence
+check only. -/
+
+open Sqf.LexRound in
+/-- the text of a program as written -/
+def progText (p : Program) : List B := renderPToks (p.lead ++ toksSeq p.stmts)
+
+open Sqf.LexRound in
+/-- **the token stream of the text is the token stream the program was written from** (any length, any nesting) -/
+theorem C01_text_tokens (reg : Registry) (p : Program)
+    (hl : ∀ t ∈ p.lead ++ toksSeq p.stmts, lexable reg t = true) : ptoks reg (progText p) = p.toks := by
+  unfold progText Program.toks
+  rw [ptoks_render reg _ hl]
+
+open Sqf.LexRound in
+/-- **parse ∘ print = id at text level**: tokenizing, classifying and parsing the text of a well-parenthesised
+program gives the documented reading, for all sufficiently large fuel -/
+theorem C01_parse_render_text (reg : Registry) (p : Program) (h : p.WP)
+    (hl : ∀ t ∈ p.lead ++ toksSeq p.stmts, lexable reg t = true) :
+    ∃ f, ∀ f', f ≤ f' → pStatements f' (skipSeps (ptoks reg (progText p))) = some (p.erase, [.eof]) := by
+  rw [C01_text_tokens reg p hl]
+  exact C01_parse_render p h
+
+/-- a registry for the sample program: `b3`, `b2` binary, `bu5` binary and unary, `u` unary -/
+def sampleReg : Registry := fun n =>
+  if n == [98, 51] then { nular := false, unary := false, binary := some 3 }
+  else if n == [98, 50] then { nular := false, unary := false, binary := some 2 }
+  else if n == [98, 117, 53] then { nular := false, unary := true, binary := some 5 }
+  else if n == [117] then { nular := false, unary := true, binary := none }
+  else { nular := false, unary := false, binary := none }
+
+open Sqf.LexRound in
+example : ∀ t ∈ sample.lead ++ toksSeq sample.stmts, lexable sampleReg t = true := by decide +kernel
+
+open Sqf.LexRound in
+example : progText sample = n!"; a b3 ( b b2 c ) b3 bu5 d ; x = [ 7 , u y ] " := by decide +kernel
+
+-- the text as a whole, evaluated by the kernel: tokenizer + classification give the tokens it was written from
+example : ptoks sampleReg (progText sample) = sample.toks := by decide +kernel
 
 /-! ## The grammar of the current tree (translated from `parser.tab.cc` on every run)
 
